@@ -733,9 +733,12 @@ class _Exporter:
         doc = graph.doc_string
         if doc:
             add(f'{indent}"""{doc}"""')
+        # As for functions: a scope for the name remappings that undo SSA renaming in loops
+        self._name_remappings.append({})
         add(self._translate_graph_body(graph, opsets, indent=indent_level))
         return_values = ", ".join(self._translate_onnx_var(x) for x in graph.output)
         add(f"{indent}return {return_values}")
+        self._name_remappings.pop()
         script = "\n".join(result)
         if self.skipped_initializers:
             value_infos = _translate_value_infos(graph.value_info)
